@@ -59,7 +59,13 @@ class C07(Check):
             opn = rng.choice(opnames)
             lib = [i['lib'] for (n, o), i in net.inst.items() if o == opn][0]
             var = rng.choice(models.LIB[lib]['const'] + models.LIB[lib]['state'])
-            val = lambda: rng.randint(1, 60) / 16
+            def val(var=var):
+                # unusual but legal values on purpose: exactly 0 and negatives (not for time constants)
+                if var != 'tau' and rng.random() < 0.2:
+                    return 0.0
+                if var != 'tau' and rng.random() < 0.15:
+                    return -rng.randint(1, 40) / 16
+                return rng.randint(1, 60) / 16
             have = [n for n in nodes if (n, opn) in net.inst]
             if k == 'one':
                 ops.append({'op': 'update_var', 'node_vars': {f'{rng.choice(have)}/{opn}/{var}': val()}})
